@@ -292,6 +292,29 @@ struct BaseContiguousParameterTraits
     {
         std::destroy(Self::begin(value), std::end(value));
     }
+
+    static void copy(const cntgs::Span<std::add_const_t<T>>& source,
+                     const cntgs::Span<T>& target) noexcept(std::is_nothrow_copy_assignable_v<T>)
+    {
+        std::copy(std::begin(source), std::end(source), std::begin(target));
+    }
+
+    static void copy(const cntgs::Span<T>& source,
+                     const cntgs::Span<T>& target) noexcept(std::is_nothrow_copy_assignable_v<T>)
+    {
+        std::copy(std::begin(source), std::end(source), std::begin(target));
+    }
+
+    static void move(const cntgs::Span<T>& source,
+                     const cntgs::Span<T>& target) noexcept(std::is_nothrow_move_assignable_v<T>)
+    {
+        std::move(std::begin(source), std::end(source), std::begin(target));
+    }
+
+    static void swap(const cntgs::Span<T>& lhs, const cntgs::Span<T>& rhs) noexcept(std::is_nothrow_swappable_v<T>)
+    {
+        std::swap_ranges(std::begin(lhs), std::end(lhs), std::begin(rhs));
+    }
 };
 
 template <class T>
@@ -431,29 +454,6 @@ struct ParameterTraits<cntgs::FixedSize<cntgs::AlignAs<T, Alignment>>> : BaseCon
         const auto padding =
             detail::trailing_padding<(TRAILING_ALIGNMENT < NextAlignment), NextAlignment>(new_offset, new_alignment);
         return {new_offset, size, padding, new_alignment};
-    }
-
-    static void copy(const cntgs::Span<std::add_const_t<T>>& source,
-                     const cntgs::Span<T>& target) noexcept(std::is_nothrow_copy_assignable_v<T>)
-    {
-        std::copy(std::begin(source), std::end(source), std::begin(target));
-    }
-
-    static void copy(const cntgs::Span<T>& source,
-                     const cntgs::Span<T>& target) noexcept(std::is_nothrow_copy_assignable_v<T>)
-    {
-        std::copy(std::begin(source), std::end(source), std::begin(target));
-    }
-
-    static void move(const cntgs::Span<T>& source,
-                     const cntgs::Span<T>& target) noexcept(std::is_nothrow_move_assignable_v<T>)
-    {
-        std::move(std::begin(source), std::end(source), std::begin(target));
-    }
-
-    static void swap(const cntgs::Span<T>& lhs, const cntgs::Span<T>& rhs) noexcept(std::is_nothrow_swappable_v<T>)
-    {
-        std::swap_ranges(std::begin(lhs), std::end(lhs), std::begin(rhs));
     }
 };
 }  // namespace cntgs::detail
